@@ -31,6 +31,15 @@ def holding : Pc σ Op ρ → Prop
   | .applied _ _ _ _ => True
   | _ => False
 
+/-- thread has acquired the lock but not yet committed -/
+def precommit : Pc σ Op ρ → Prop
+  | .locked _ _ => True
+  | .reading _ _ _ => True
+  | _ => False
+
+theorem holding_of_precommit {p : Pc σ Op ρ} (h : precommit p) : holding p := by
+  cases p <;> simp [precommit, holding] at h ⊢
+
 /-- the invariant of the system in which every method takes the lock exclusively -/
 structure Inv (sys : Sys σ Op ρ) (s : State σ Op ρ) : Prop where
   seq : seqRun sys.apply sys.init (s.lin.map (·.op)) = (s.obj, s.lin.map (·.ret))
@@ -47,9 +56,11 @@ structure Inv (sys : Sys σ Op ρ) (s : State σ Op ρ) : Prop where
   doneDistinct : s.done.Pairwise (fun a b => a.linAt ≠ b.linAt)
   owner : ∀ u, s.lock = .excl u → holding (s.pc u)
   noShared : ∀ k, s.lock ≠ .shared k
+  acqPre : ∀ t, precommit (s.pc t) → s.acqs = s.lin.map (·.t) ++ [t]
+  acqDone : (∀ t, ¬ precommit (s.pc t)) → s.acqs = s.lin.map (·.t)
 
 theorem init_inv (sys : Sys σ Op ρ) : Inv sys (initState sys) := by
-  refine ⟨by simp [initState, seqRun], ?_, ?_, ?_, ?_, ?_, ?_, ?_, ?_, ?_, ?_, ?_⟩ <;> simp [initState, holding]
+  refine ⟨by simp [initState, seqRun], ?_, ?_, ?_, ?_, ?_, ?_, ?_, ?_, ?_, ?_, ?_, ?_, ?_⟩ <;> simp [initState, holding, precommit]
 
 theorem acquire_excl {t : Nat} {l l' : Lock} (h : acquire .excl t l = some l') : l = .free ∧ l' = .excl t := by
   cases l <;> simp [acquire] at h
@@ -57,17 +68,27 @@ theorem acquire_excl {t : Nat} {l l' : Lock} (h : acquire .excl t l = some l') :
 
 theorem step_inv (sys : Sys σ Op ρ) (hx : ∀ op, sys.mode op = .excl) {s s' : State σ Op ρ} {a : Act Op}
     (h : step sys s a = some s') (hi : Inv sys s) : Inv sys s' := by
-  obtain ⟨seq, holder, linB, sorted, waitT, lockT, readT, applT, doneOK, doneDistinct, owner, noShared⟩ := hi
+  obtain ⟨seq, holder, linB, sorted, waitT, lockT, readT, applT, doneOK, doneDistinct, owner, noShared, acqPre, acqDone⟩ := hi
   cases a with
   | inv t op =>
     cases hpc : s.pc t <;> simp [step, hpc] at h
     subst h
-    refine ⟨seq, ?_, ?_, sorted, ?_, ?_, ?_, ?_, ?_, doneDistinct, ?_, noShared⟩
-    rotate_right
+    refine ⟨seq, ?_, ?_, sorted, ?_, ?_, ?_, ?_, ?_, doneDistinct, ?_, noShared, ?_, ?_⟩
+    rotate_right 3
     · intro u hu
       by_cases e : u = t
       · subst e; have := owner u hu; simp [hpc, holding] at this
       · simp [e]; exact owner u hu
+    · intro u hu
+      by_cases e : u = t
+      · subst e; simp [precommit] at hu
+      · simp [e] at hu; exact acqPre u hu
+    · intro hall
+      apply acqDone
+      intro u hu
+      by_cases e : u = t
+      · subst e; simp [hpc, precommit] at hu
+      · have := hall u; simp [e] at this; exact this hu
     · intro t' ht'
       by_cases e : t' = t
       · subst e; simp [holding] at ht'
@@ -99,11 +120,18 @@ theorem step_inv (sys : Sys σ Op ρ) (hx : ∀ op, sys.mode op = .excl) {s s' :
     rename_i l
     obtain ⟨hfree, hl⟩ := acquire_excl hacq
     subst h
-    refine ⟨seq, ?_, ?_, sorted, ?_, ?_, ?_, ?_, ?_, doneDistinct, ?_, ?_⟩
-    rotate_right 2
+    have nopre : ∀ u, ¬ precommit (s.pc u) := by
+      intro u hu; have := holder u (holding_of_precommit hu); rw [hfree] at this; cases this
+    refine ⟨seq, ?_, ?_, sorted, ?_, ?_, ?_, ?_, ?_, doneDistinct, ?_, ?_, ?_, ?_⟩
+    rotate_right 4
     · intro u hu
       simp [hl] at hu; subst hu; simp [holding]
     · intro k hk; simp [hl] at hk
+    · intro u hu
+      by_cases e : u = t
+      · subst e; simp [acqDone nopre]
+      · simp [e] at hu; exact absurd hu (nopre u)
+    · intro hall; have := hall t; simp [precommit] at this
     · intro t' ht'
       by_cases e : t' = t
       · subst e; simpa using hl
@@ -132,10 +160,15 @@ theorem step_inv (sys : Sys σ Op ρ) (hx : ∀ op, sys.mode op = .excl) {s s' :
     rename_i op i
     subst h
     have hlk : s.lock = .excl t := holder t (by simp [hpc, holding])
-    refine ⟨seq, ?_, ?_, sorted, ?_, ?_, ?_, ?_, ?_, doneDistinct, ?_, noShared⟩
-    rotate_right
+    refine ⟨seq, ?_, ?_, sorted, ?_, ?_, ?_, ?_, ?_, doneDistinct, ?_, noShared, ?_, ?_⟩
+    rotate_right 3
     · intro u hu
       simp [hlk] at hu; subst hu; simp [holding]
+    · intro u hu
+      by_cases e : u = t
+      · subst e; exact acqPre u (by simp [hpc, precommit])
+      · simp [e] at hu; exact acqPre u hu
+    · intro hall; have := hall t; simp [precommit] at this
     · intro t' ht'
       by_cases e : t' = t
       · subst e; exact hlk
@@ -169,10 +202,17 @@ theorem step_inv (sys : Sys σ Op ρ) (hx : ∀ op, sys.mode op = .excl) {s s' :
     subst hsn
     have others : ∀ t', t' ≠ t → ¬ holding (s.pc t') := by
       intro t' e ht'; have := holder t' ht'; rw [hlk] at this; cases this; exact e rfl
-    refine ⟨?_, ?_, ?_, ?_, ?_, ?_, ?_, ?_, ?_, doneDistinct, ?_, noShared⟩
-    rotate_right
+    refine ⟨?_, ?_, ?_, ?_, ?_, ?_, ?_, ?_, ?_, doneDistinct, ?_, noShared, ?_, ?_⟩
+    rotate_right 3
     · intro u hu
       simp [hlk] at hu; subst hu; simp [holding]
+    · intro u hu
+      by_cases e : u = t
+      · subst e; simp [precommit] at hu
+      · simp [e] at hu; exact absurd (holding_of_precommit hu) (others u e)
+    · intro _
+      have := acqPre t (by simp [hpc, precommit])
+      simp [this]
     · simp only [List.map_append, List.map_cons, List.map_nil]
       rw [seqRun_snoc, seq]
     · intro t' ht'
@@ -215,10 +255,20 @@ theorem step_inv (sys : Sys σ Op ρ) (hx : ∀ op, sys.mode op = .excl) {s s' :
     obtain ⟨a1, a2, a3, a4⟩ := applT t op i r l hpc
     have others : ∀ t', t' ≠ t → ¬ holding (s.pc t') := by
       intro t' e ht'; have := holder t' ht'; rw [hlk] at this; cases this; exact e rfl
-    refine ⟨seq, ?_, ?_, sorted, ?_, ?_, ?_, ?_, ?_, ?_, ?_, ?_⟩
-    rotate_right 2
+    refine ⟨seq, ?_, ?_, sorted, ?_, ?_, ?_, ?_, ?_, ?_, ?_, ?_, ?_, ?_⟩
+    rotate_right 4
     · intro u hu; simp [hx, release] at hu
     · intro k hk; simp [hx, release] at hk
+    · intro u hu
+      by_cases e : u = t
+      · subst e; simp [precommit] at hu
+      · simp [e] at hu; exact acqPre u hu
+    · intro hall
+      apply acqDone
+      intro u hu
+      by_cases e : u = t
+      · subst e; simp [hpc, precommit] at hu
+      · have := hall u; simp [e] at this; exact this hu
     · intro t' ht'
       by_cases e : t' = t
       · subst e; simp [holding] at ht'
